@@ -14,7 +14,7 @@ import z3
 from pyvc.spec import Spec, Loop, Lemma, Custom
 from pyvc.vals import IntV, BoolV, ListV, TupV, Unsupported
 from pyvc.pure import fresh, to_int
-from .util import take
+from .util import take, distinct_keys
 
 PROPERTY = 'C19'
 LEVEL = 'proof'
@@ -416,7 +416,7 @@ def bounded(tier, seed):
             violations.append(dict(key='poller addresses=%r failing=%r reach=%r cycles=%r' % (addrs, sorted(bad), reach, sch), observed=repr(h.get('log'))[:300], required='; '.join(badl)))
     if not samples:
         samples.append(dict(ranges=[(0, 3), (1, 1)], reach=1, limit=None, merged=_run_merge([(0, 3), (1, 1)], 1, None)[1]))
-    return dict(evaluations=ev, distinct_nontrivial=len(distinct),
+    return dict(evaluations=ev, distinct_nontrivial=len(distinct), distinct_keys=distinct_keys(distinct),
                 rule='merge: lists of 0..%d ranges (address offset 0..6, count 1..3) placed at bank positions 0 / 9996 / 40001, '
                      'reach and limit in {None,0,1,2,3}; all lists up to 2 ranges x all reach x limit {None,1,2}, sampled beyond; '
                      'oracle = set semantics of the property; distinct = distinct (ranges, reach, limit) with >= 2 ranges; '
